@@ -133,8 +133,9 @@ let dispatch = function
       (match st_of st, enc_of enc with
        | Some s, Some e -> (match spec_address (net_of net) s e (bytes_of_hex data) with Some a -> str_of_bytes a | None -> "NONE")
        | _ -> "BADREQ")
-  (* argument combinations (addrx) and histories on one key object (sess) are judged by the property-level oracle only *)
-  | "addrx" :: _ | "sess" :: _ -> "OOS"
+  (* argument combinations (addrx), histories on one key object (sess) and the text routes of a private key (route: WIF,
+     BIP38) are judged by the property-level oracle only *)
+  | "addrx" :: _ | "sess" :: _ | "route" :: _ -> "OOS"
   | _ -> "BADREQ"
 
 let () = main dispatch
